@@ -175,6 +175,9 @@ def do_queries(case, env, res):
                 ans = page_answer(w.normalize_and_get_page(q["name"], q["dns"]))
             elif kind == "image":
                 ans = image_answer(env.images.get_disk_path(q["name"]))
+            elif kind == "fq":
+                # the key under which NuWiki / the expander / the fetcher file a title (same handler as every other lookup)
+                ans = {"fq": w.nshandler.get_fqname(q["name"], defaultns=q["dns"])}
             else:
                 raise ValueError("unknown query %r" % (kind,))
         except Exception as e:
